@@ -23,14 +23,14 @@ def levels(tier):
             {"name": "nested-n1", "n": 1, "prelude": TPL + [["we", [[1, 4]]]], "alphabet": ["delwe", "rmprefix", "moveprefix", "addprefix"], "defaults": ["never"]},
         ]
     return [
-        {"name": "n2", "n": 2, "alphabet": ["links", "we", "addprefix", "batch", "page", "delwe", "moveprefix"], "links_batch": 2,
-         "batch_targets": 2, "defaults": ["never", "domain"]},
-        {"name": "n3", "n": 3, "alphabet": ["links", "we", "addprefix"], "links_batch": 1, "defaults": ["never", "domain"],
-         "pool": [POOL4[0], POOL4[1], POOL4[3]]},
         {"name": "tpl-n2", "n": 2, "prelude": TPL, "alphabet": ["we", "addprefix", "moveprefix", "delwe", "links"], "links_batch": 1,
          "defaults": ["never", "domain"]},
         {"name": "nested-n2", "n": 2, "prelude": TPL + [["we", [[1, 4]]]], "alphabet": ["delwe", "rmprefix", "moveprefix", "addprefix", "links"],
          "links_batch": 1, "defaults": ["never"]},
+        {"name": "n3", "n": 3, "alphabet": ["links", "we", "addprefix"], "links_batch": 1, "defaults": ["never", "domain"],
+         "pool": [POOL4[0], POOL4[1], POOL4[3]]},
+        {"name": "n2-wide", "n": 2, "alphabet": ["links", "we", "addprefix", "batch", "page", "delwe"], "links_batch": 1,
+         "batch_targets": 1, "defaults": ["never", "domain"]},
     ]
 
 
